@@ -288,35 +288,54 @@ theorem enc_step {α β : Type} {p : P α} {f : α → P β} {s0 s : Src} {pre :
   apply h2 a s1 hphi (adv0.trans adv)
   rw [seg_trans adv0 adv, acc, hseg]
 
-theorem parseInvoke_spec (s : Src) (w : s.wf) :
-    SpecAt parseInvoke s (fun pl s' => seg s s' = serPayload pl ∧ ∃ c, pl = .invoke c) := by
-  unfold parseInvoke
-  apply enc_step (Adv.refl w) (seg_self s) (rVarBytes_spec true s w)
-  intro code s1 _ adv1 acc1
-  apply spec_pure (adv1.wf w)
-  exact ⟨by rw [acc1]; rfl, code, rfl⟩
+theorem rVarBytes_spec2 (ef : Bool) (s : Src) (w : s.wf) :
+    SpecAt (rVarBytes ef) s (fun d s' => seg s s' = writeVarBytes d ∧ d.length < two64) :=
+  spec_mono (rVarBytes_spec ef s w) (fun d s' adv h => ⟨h.1, by
+    have h1 := seg_length adv
+    rw [h.1] at h1
+    unfold writeVarBytes at h1
+    simp at h1
+    have h2 := adv.2.2
+    rw [adv.1] at h2
+    have h3 := w.2
+    omega⟩)
 
+/-- every byte-string field of a decoded payload is shorter than 2^64 -/
+def PlWf : Payload → Prop
+  | .invoke c => c.length < two64
+  | .deploy c _ a b d e f => c.length < two64 ∧ a.length < two64 ∧ b.length < two64 ∧ d.length < two64 ∧
+      e.length < two64 ∧ f.length < two64
+  | .eip _ => False
+
+theorem parseInvoke_spec (s : Src) (w : s.wf) :
+    SpecAt parseInvoke s (fun pl s' => seg s s' = serPayload pl ∧ ((∃ c, pl = .invoke c) ∧ PlWf pl)) := by
+  unfold parseInvoke
+  apply enc_step (Adv.refl w) (seg_self s) (rVarBytes_spec2 true s w)
+  intro code s1 hc adv1 acc1
+  apply spec_pure (adv1.wf w)
+  exact ⟨by rw [acc1]; rfl, ⟨code, rfl⟩, hc⟩
 
 theorem parseDeploy_spec (s : Src) (w : s.wf) :
-    SpecAt parseDeploy s (fun pl s' => seg s s' = serPayload pl ∧ ∃ c v a b d e f, pl = .deploy c v a b d e f) := by
+    SpecAt parseDeploy s (fun pl s' => seg s s' = serPayload pl ∧
+      ((∃ c v a b d e f, pl = .deploy c v a b d e f) ∧ PlWf pl)) := by
   unfold parseDeploy
-  apply enc_step (Adv.refl w) (seg_self s) (rVarBytes_spec true s w)
-  intro code s1 _ adv1 acc1
+  apply enc_step (Adv.refl w) (seg_self s) (rVarBytes_spec2 true s w)
+  intro code s1 h1 adv1 acc1
   apply enc_step adv1 acc1 (rByte_spec s1 (adv1.wf w))
   intro vm s2 _ adv2 acc2
-  apply enc_step adv2 acc2 (rVarBytes_spec true s2 (adv2.wf w))
-  intro name s3 _ adv3 acc3
-  apply enc_step adv3 acc3 (rVarBytes_spec true s3 (adv3.wf w))
-  intro ver s4 _ adv4 acc4
-  apply enc_step adv4 acc4 (rVarBytes_spec true s4 (adv4.wf w))
-  intro author s5 _ adv5 acc5
-  apply enc_step adv5 acc5 (rVarBytes_spec true s5 (adv5.wf w))
-  intro email s6 _ adv6 acc6
-  apply enc_step adv6 acc6 (rVarBytes_spec false s6 (adv6.wf w))
-  intro desc s7 _ adv7 acc7
+  apply enc_step adv2 acc2 (rVarBytes_spec2 true s2 (adv2.wf w))
+  intro name s3 h3 adv3 acc3
+  apply enc_step adv3 acc3 (rVarBytes_spec2 true s3 (adv3.wf w))
+  intro ver s4 h4 adv4 acc4
+  apply enc_step adv4 acc4 (rVarBytes_spec2 true s4 (adv4.wf w))
+  intro author s5 h5 adv5 acc5
+  apply enc_step adv5 acc5 (rVarBytes_spec2 true s5 (adv5.wf w))
+  intro email s6 h6 adv6 acc6
+  apply enc_step adv6 acc6 (rVarBytes_spec2 false s6 (adv6.wf w))
+  intro desc s7 h7 adv7 acc7
   split
   · apply spec_pure (adv7.wf w)
-    refine ⟨?_, _, _, _, _, _, _, _, rfl⟩
+    refine ⟨?_, ⟨_, _, _, _, _, _, _, rfl⟩, h1, h3, h4, h5, h6, h7⟩
     rw [acc7]
     simp [serPayload]
   · exact spec_fail
@@ -328,11 +347,11 @@ def PlKind (ty : UInt8) (pl : Payload) : Prop :=
 /-- what `deserializeOntUnsigned` guarantees about the fields it returns -/
 def WfU (u : TxU) : Prop :=
   u.version = 0 ∧ u.txType ≠ 0xd3 ∧ u.nonce < 256 ^ 4 ∧ u.gasPrice < 256 ^ 8 ∧ u.gasLimit < 256 ^ 8 ∧
-  u.payer.length = 20 ∧ PlKind u.txType u.payload
+  u.payer.length = 20 ∧ PlKind u.txType u.payload ∧ PlWf u.payload
 
 theorem WfU.not_eip {u : TxU} (h : WfU u) (e : EipTx) : u.payload ≠ .eip e := by
   intro he
-  rcases h.2.2.2.2.2.2 with ⟨_, c, hc⟩ | ⟨_, c, v, a, b, d, e', f, hc⟩ <;> rw [hc] at he <;> cases he
+  rcases h.2.2.2.2.2.2.1 with ⟨_, c, hc⟩ | ⟨_, c, v, a, b, d, e', f, hc⟩ <;> rw [hc] at he <;> cases he
 
 theorem parseOntUnsigned_spec (s : Src) (w : s.wf) :
     SpecAt parseOntUnsigned s (fun u s' => seg s s' = serUnsigned u ∧ WfU u) := by
@@ -359,15 +378,15 @@ theorem parseOntUnsigned_spec (s : Src) (w : s.wf) :
   intro payer s6 hpayer adv6 acc6
   have hpl : SpecAt (if (ty == 0xd1 || ty == 0xd2) = true then parseInvoke
             else if (ty == 0xd0) = true then parseDeploy else fail .invalid) s6
-            (fun pl s' => seg s6 s' = serPayload pl ∧ PlKind ty pl) := by
+            (fun pl s' => seg s6 s' = serPayload pl ∧ (PlKind ty pl ∧ PlWf pl)) := by
     split
     · rename_i hk
       have hk' : ty = 0xd1 ∨ ty = 0xd2 := by simpa using hk
-      exact spec_mono (parseInvoke_spec s6 (adv6.wf w)) (fun pl _ _ h => ⟨h.1, Or.inl ⟨hk', h.2⟩⟩)
+      exact spec_mono (parseInvoke_spec s6 (adv6.wf w)) (fun pl _ _ h => ⟨h.1, Or.inl ⟨hk', h.2.1⟩, h.2.2⟩)
     · split
       · rename_i _ hk
         have hk' : ty = 0xd0 := by simpa using hk
-        exact spec_mono (parseDeploy_spec s6 (adv6.wf w)) (fun pl _ _ h => ⟨h.1, Or.inr ⟨hk', h.2⟩⟩)
+        exact spec_mono (parseDeploy_spec s6 (adv6.wf w)) (fun pl _ _ h => ⟨h.1, Or.inr ⟨hk', h.2.1⟩, h.2.2⟩)
       · exact spec_fail
   apply enc_step adv6 acc6 hpl
   intro pl s7 hkind adv7 acc7
@@ -380,7 +399,7 @@ theorem parseOntUnsigned_spec (s : Src) (w : s.wf) :
     apply spec_pure (adv8.wf w)
     have : attr = 0 := by simpa using hattr
     subst this
-    refine ⟨?_, by simpa using hver, by simpa using hty, hnonce, hgp, hgl, hpayer, hkind⟩
+    refine ⟨?_, by simpa using hver, by simpa using hty, hnonce, hgp, hgl, hpayer, hkind.1, hkind.2⟩
     rw [acc8]
     simp [serUnsigned, writeUintN]
 
@@ -700,18 +719,6 @@ theorem raw_eq_seg {R : Rlp} (hR : R.canonical) {s : Src} {t : Tx} {s' : Src} (h
   · exact hraw
   · rw [(fromEip155_ok hfrom).2.2.2.1, hR code e hdec, hseg]
 
-theorem rVarBytes_spec2 (ef : Bool) (s : Src) (w : s.wf) :
-    SpecAt (rVarBytes ef) s (fun d s' => seg s s' = writeVarBytes d ∧ d.length < two64) :=
-  spec_mono (rVarBytes_spec ef s w) (fun d s' adv h => ⟨h.1, by
-    have h1 := seg_length adv
-    rw [h.1] at h1
-    unfold writeVarBytes at h1
-    simp at h1
-    have h2 := adv.2.2
-    rw [adv.1] at h2
-    have h3 := w.2
-    omega⟩)
-
 /-! ### Injectivity of the encoders (used for "the hash input determines the fields") -/
 
 theorem leN_inj (k a b : Nat) (ha : a < 256 ^ k) (hb : b < 256 ^ k) (h : leN k a = leN k b) : a = b := by
@@ -793,6 +800,68 @@ theorem writeVarBytes_prefix_inj (a b : Bytes) (ha : a.length < two64) (hb : b.l
   rw [List.append_assoc, List.append_assoc] at h
   obtain ⟨hl, h2⟩ := writeVarUint_prefix_inj a.length b.length ha hb _ _ h
   exact List.append_inj h2 hl
+
+
+theorem serPayload_inj_invoke (c c' : Bytes) (h1 : c.length < two64) (h2 : c'.length < two64) (x y : Bytes)
+    (h : serPayload (.invoke c) ++ x = serPayload (.invoke c') ++ y) : c = c' ∧ x = y := by
+  unfold serPayload at h
+  exact writeVarBytes_prefix_inj c c' h1 h2 x y h
+
+theorem serPayload_inj_deploy (c c' : Bytes) (v v' : UInt8) (a a' b b' d d' e e' f f' : Bytes)
+    (w1 : PlWf (.deploy c v a b d e f)) (w2 : PlWf (.deploy c' v' a' b' d' e' f')) (x y : Bytes)
+    (h : serPayload (.deploy c v a b d e f) ++ x = serPayload (.deploy c' v' a' b' d' e' f') ++ y) :
+    Payload.deploy c v a b d e f = Payload.deploy c' v' a' b' d' e' f' ∧ x = y := by
+  obtain ⟨l1, l2, l3, l4, l5, l6⟩ := w1
+  obtain ⟨m1, m2, m3, m4, m5, m6⟩ := w2
+  unfold serPayload at h
+  simp only [List.append_assoc] at h
+  obtain ⟨e1, h⟩ := writeVarBytes_prefix_inj _ _ l1 m1 _ _ h
+  simp only [List.cons_append, List.nil_append] at h
+  obtain ⟨e2, h⟩ := List.cons.inj h
+  obtain ⟨e3, h⟩ := writeVarBytes_prefix_inj _ _ l2 m2 _ _ h
+  obtain ⟨e4, h⟩ := writeVarBytes_prefix_inj _ _ l3 m3 _ _ h
+  obtain ⟨e5, h⟩ := writeVarBytes_prefix_inj _ _ l4 m4 _ _ h
+  obtain ⟨e6, h⟩ := writeVarBytes_prefix_inj _ _ l5 m5 _ _ h
+  obtain ⟨e7, hxy⟩ := writeVarBytes_prefix_inj _ _ l6 m6 _ _ h
+  rw [e1, e2, e3, e4, e5, e6, e7]
+  exact ⟨rfl, hxy⟩
+
+/-- the unsigned serialisation determines every unsigned field of a decoded Ontology-shape transaction -/
+theorem serUnsigned_inj (u v : TxU) (hu : WfU u) (hv : WfU v) (h : serUnsigned u = serUnsigned v) : u = v := by
+  obtain ⟨u1, u2, u3, u4, u5, u6, uk, uw⟩ := hu
+  obtain ⟨v1, v2, v3, v4, v5, v6, vk, vw⟩ := hv
+  unfold serUnsigned writeUintN at h
+  simp only [List.append_assoc, List.cons_append, List.nil_append] at h
+  obtain ⟨e1, h⟩ := List.cons.inj h
+  obtain ⟨e2, h⟩ := List.cons.inj h
+  obtain ⟨e3, h⟩ := List.append_inj h (by simp [leN_length])
+  obtain ⟨e4, h⟩ := List.append_inj h (by simp [leN_length])
+  obtain ⟨e5, h⟩ := List.append_inj h (by simp [leN_length])
+  obtain ⟨e6, h⟩ := List.append_inj h (by rw [u6, v6])
+  have f3 := leN_inj 4 _ _ u3 v3 e3
+  have f4 := leN_inj 8 _ _ u4 v4 e4
+  have f5 := leN_inj 8 _ _ u5 v5 e5
+  have hpl : u.payload = v.payload := by
+    rcases uk with ⟨ut, c, hc⟩ | ⟨ut, c, vm, a, b, d, e, f, hc⟩ <;>
+      rcases vk with ⟨vt, c', hc'⟩ | ⟨vt, c', vm', a', b', d', e', f', hc'⟩
+    · rw [hc] at h uw
+      rw [hc'] at h vw
+      rw [hc, hc', (serPayload_inj_invoke c c' uw vw _ _ h).1]
+    · exfalso
+      rw [e2] at ut
+      rw [vt] at ut
+      rcases ut with ut | ut <;> exact absurd ut (by decide)
+    · exfalso
+      rw [e2, ] at ut
+      rcases vt with vt | vt <;> (rw [vt] at ut; exact absurd ut (by decide))
+    · rw [hc] at h uw
+      rw [hc'] at h vw
+      rw [hc, hc']
+      exact (serPayload_inj_deploy _ _ _ _ _ _ _ _ _ _ _ _ _ _ uw vw _ _ h).1
+  cases u; cases v
+  simp only at e1 e2 f3 f4 f5 e6 hpl
+  subst e1 e2 f3 f4 f5 e6 hpl
+  rfl
 
 
 end OntVerif.Proofs.Tx
